@@ -685,7 +685,23 @@ def c08(ctx):
                           {"assignments": 2, "event_every": 300, "event_cap": 1000, "nontrivial_min_ops": 1}],
                          evals=["cpx"], invs=[], lexer={"alphabets": ["lit", "kw2"], "k_quick": 3, "k_thorough": 5})
 
-CHECKS = {"C05": c05, "C07": c07, "C08": c08, "C18": c18, "C19": c19, "C17": c17, "C16": c16, "C02": c02, "C11": c11, "C06": c06, "C09": c09, "C01": c01, "C03": c03, "C04": c04, "C12": c12, "C13": c13, "C14": c14, "C20": c20}
+def c10(ctx):
+    q = ctx.quick()
+    vlib.vocab_json()
+    vr = simple_model(ctx, "MCVocab", "INIT Init\nNEXT Next\nCHECK_DEADLOCK FALSE\nINVARIANT Spelled ConstSpelled NeedsParen Emit\n", "vocab")
+    def jobs(profile):
+        js = []
+        for sh in range(8):
+            js.append(dict(base_job(ctx, "replay", "%s_fn_%d" % (profile, sh), profile, beh=vr["beh_path"], e="f64", shard=sh, nshards=8, samples_per_pair=200 if q else 20000,
+                                    event_every=50, event_cap=1500)))
+        return js
+    f, s = run_jobs(ctx, jobs)
+    sv = [("MCVocab", vr["violated"], vr["log"])] if vr["violated"] else []
+    return finish(ctx, {"value", "err_on_defined", "ok_on_semantic_err", "ok_on_reject", "profile_diff"}, [vr], f, s,
+                  "every (evaluator, spelling) pair, constant and postfix operator enumerated by spec/MCVocab.tla x argument samples over the domain (edges, halves, integers, large / tiny / negative values, seeded random at five scales): exact functions bit- and variant-exact, the others within 1e-9 relative of the host math library and closed forms, Lambert W by its defining identity, non-integer factorial also by the recurrence, eval_i64 real-valued functions within 1; non-trivial = every (pair, argument) call",
+                  extra={"invariants_checked": ["Spelled", "ConstSpelled", "NeedsParen", "Vocab!ReadmeAgrees", "Vocab!PrefixFree"], "pairs": vr["beh"], "exhaustive": True}, spec_viol=sv)
+
+CHECKS = {"C10": c10, "C05": c05, "C07": c07, "C08": c08, "C18": c18, "C19": c19, "C17": c17, "C16": c16, "C02": c02, "C11": c11, "C06": c06, "C09": c09, "C01": c01, "C03": c03, "C04": c04, "C12": c12, "C13": c13, "C14": c14, "C20": c20}
 
 def replay(prop, path):
     f = json.load(open(path))
